@@ -1121,12 +1121,26 @@ fn multi_scenario_inner(net: &mut Net, rng: &mut Rng, sc: usize, thorough: bool,
 	// the inbound edge whose monitor updates complete readily; the other one stays in flight (1/12 per roll)
 	let fav = if rng.chance(1, 2) { c0 } else { c2 };
 	let steps = if thorough { 60 + rng.below(40) } else { 40 + rng.below(30) } as usize;
-	let crash_step = if crash { 10 + rng.below(steps as u64 - 10) as usize } else { usize::MAX };
+	let crash_step = if crash { 30 + rng.below(steps as u64 - 30) as usize } else { usize::MAX };
 	let mut crashed = false;
 	let mut p_crash = usize::MAX; let mut ev0 = 0usize;
+	let mut crash_minp: BTreeMap<usize, Option<u64>> = BTreeMap::new();
+	let mut scanned = net.trace.len(); let mut fulfils_dlv = 0usize; let mut raa_ids: std::collections::BTreeSet<u64> = Default::default();
 	for step in 0..steps {
 		snap_monitors(net, &mut snaps);
-		if step == crash_step {
+		// crash variant, directed: first let C's claims reach B while every inbound edge's preimage update stays in flight (phase 1),
+		// then crash — most of the time — right after a downstream revoke_and_ack update became durable while an inbound edge still
+		// has updates in flight (the instant at which a missing blocker costs money), else at `crash_step`
+		let mut raa_durable_now = false;
+		for o in &net.trace[scanned..] { match o {
+			Obs::Delivered { from: C, to: B, kind: "fulfill", .. } => fulfils_dlv += 1,
+			Obs::Update { node: B, chan, id, kinds, .. } if *chan == c1 && kinds.contains(&"CommitmentSecret") => { raa_ids.insert(*id); },
+			Obs::Completed { node: B, chan, id } if *chan == c1 && raa_ids.contains(id) => raa_durable_now = true,
+			_ => {} } }
+		scanned = net.trace.len();
+		let phase1 = crash && fulfils_dlv < n_htlc && step < 30;
+		let up_pending = !net.pending_updates(B, c0).is_empty() || !net.pending_updates(B, c2).is_empty();
+		if step == crash_step || (crash && !phase1 && raa_durable_now && up_pending && fulfils_dlv >= 2 && rng.chance(2, 3)) || (crash && step + 1 == steps) {
 			let (_, cur) = net.snapshot(B);
 			let mut ids = net.nodes[B].chain_monitor.chain_monitor.list_monitors(); ids.sort();
 			let mut mons = vec![];
@@ -1138,6 +1152,7 @@ fn multi_scenario_inner(net: &mut Net, rng: &mut Rng, sc: usize, thorough: bool,
 				}
 			}
 			p_crash = net.trace.len(); ev0 = net.events[B].len();
+			for c in [c0, c2] { crash_minp.insert(c, net.pending_updates(B, c).first().cloned()); }
 			net.restart_from(B, &stale_mgr, &mons).map_err(|e| format!("restart failed: {}", e))?;
 			crashed = true;
 			// startup work: replayed claims, regenerated updates (synchronous persister now), forwards / fail-backs
@@ -1147,6 +1162,14 @@ fn multi_scenario_inner(net: &mut Net, rng: &mut Rng, sc: usize, thorough: bool,
 			}
 			net.process_events(B);
 			break;
+		}
+		if phase1 {
+			match rng.below(10) {
+				0..=5 => { let q: Vec<(usize, usize)> = [(B, C), (C, B)].iter().cloned().filter(|l| net.queued(l.0, l.1) > 0).collect(); if !q.is_empty() { let (i, j) = *rng.pick(&q); net.deliver(i, j); } },
+				6 | 7 => { if !to_claim.is_empty() { let k = to_claim.remove(0); net.claim(fwds[k].pay); net.process_events(C); } },
+				_ => { let pend = net.pending_updates(B, c1); if !pend.is_empty() { let id = *rng.pick(&pend); net.complete(B, c1, id); } },
+			}
+			continue;
 		}
 		match rng.below(20) {
 			0..=8 => {
@@ -1271,15 +1294,24 @@ fn multi_scenario_inner(net: &mut Net, rng: &mut Rng, sc: usize, thorough: bool,
 	if crashed {
 		// every forwarded HTLC is claimed (or still claimable) by C and nothing was mined: after restart + replay from the stale
 		// manager and the durable monitors B must not fail ANY of them backwards
-		let mut failed = 0;
-		for e in &net.events[B][ev0.min(net.events[B].len())..] { if let Event::HTLCHandlingFailed { .. } = e {
-			failed += 1;
-			out.oracle.push(format!("multi scenario {}: after a crash and a restart from a ChannelManager written before the claims (monitors as durable at the crash) B FAILED A FORWARDED HTLC BACKWARDS although the next hop fulfilled it and its removal is durable downstream — B loses the amount: {}; HTLCs at the crash: {}; schedule before the crash: {}", sc,
-				format!("{:?}", e).chars().take(260).collect::<String>(),
-				(0..n_htlc).map(|x| format!("htlc{}=c{}/id{}/{}msat fulfil-seen={} pre={}", x, fwds[x].up_chan, fwds[x].up_id.unwrap(), fwds[x].out_amt, seen_fulfil[x] as u8, pre[x])).collect::<Vec<_>>().join(" "),
-				sched.join("; ")));
-		} }
-		out.classes.push(format!("crash:stale-manager:fulfils-seen={}:preimages-in-flight={}:failed-back={}", seen_fulfil.iter().filter(|x| **x).count(), (0..n_htlc).filter(|k| seen_fulfil[*k] && pre[*k] != 'd').count(), failed));
+		// a fail-back on inbound edge u is a LOSS when it hits an HTLC whose preimage is NOT durable in u's monitor (B cannot claim it
+		// any more, the next hop can); a fail-back event for an HTLC whose preimage IS durable upstream is spurious (counted)
+		let durable_pre = |k: usize| -> bool { pre[k] == 'd' && match (u[k], crash_minp.get(&fwds[k].up_chan).cloned().flatten()) { (Some(id), Some(minp)) => id < minp, (Some(_), None) => true, _ => false } };
+		let mut failed = 0; let mut lost = 0;
+		for uc in [c0, c2] {
+			let cid_txt = format!("{}", net.chans[uc].2);
+			let evs: Vec<String> = net.events[B][ev0.min(net.events[B].len())..].iter().filter(|e| matches!(e, Event::HTLCHandlingFailed { .. })).map(|e| format!("{:?}", e)).filter(|t| t.contains(&cid_txt)).collect();
+			let n_durable = (0..n_htlc).filter(|k| fwds[*k].up_chan == uc && durable_pre(*k)).count();
+			failed += evs.len();
+			if evs.len() > n_durable {
+				lost += evs.len() - n_durable;
+				out.oracle.push(format!("multi scenario {}: after a crash and a restart from a ChannelManager written before the claims (monitors as durable at the crash) B FAILED BACKWARDS {} forwarded HTLC(s) of inbound edge c{} whose preimage is not durable in that edge's monitor, although the next hop holds the preimage and nothing timed out — B loses the amount: {}; HTLCs at the crash: {}; schedule before the crash: {}", sc, evs.len() - n_durable, uc,
+					evs[0].chars().take(200).collect::<String>(),
+					(0..n_htlc).map(|x| format!("htlc{}=c{}/id{}/{}msat fulfil-seen={} pre={} durable={}", x, fwds[x].up_chan, fwds[x].up_id.unwrap(), fwds[x].out_amt, seen_fulfil[x] as u8, pre[x], durable_pre(x) as u8)).collect::<Vec<_>>().join(" "),
+					sched.join("; ")));
+			}
+		}
+		out.classes.push(format!("crash:stale-manager:fulfils-seen={}:preimages-in-flight={}:failed-back-events={}:lost={}", seen_fulfil.iter().filter(|x| **x).count(), (0..n_htlc).filter(|k| seen_fulfil[*k] && !durable_pre(*k)).count(), failed, lost));
 		out.lines.push(("crashed".into(), "ok".into(), "crashed".into(), true));
 		out.classes.push(format!("scenario:n={}:crash", n_htlc));
 		return Ok(out);
